@@ -376,7 +376,7 @@ func keyRun(prop, tier string, c Case, w *Worker) (res Result) {
 func init() {
 	register(&Engine{Name: "keys", Props: []string{"C18"}, Cases: keyCases, Run: keyRun})
 	propMeta["C18"] = PropMeta{Level: "exploration",
-		Rule:        "per case two key pairs are generated with utility.Keygen for one (role, format) in {encryption: age, pgp; signature: minisign, pgp} and one password kind (empty, ASCII, non-ASCII, 300 bytes); the pair must parse with its password, string / stream / header variants must round-trip under the matching halves, parsing the private half with 2-3 different passwords (longer, unrelated, empty) must fail, and data of pair 1 must not decrypt / verify under pair 2 (nor altered data verify); every case is non-trivial; distinct = distinct (role, format, password kind, repetition)",
+		Rule:        "per case two key pairs are generated with utility.Keygen for one (role, format) in {encryption: age, pgp; signature: minisign, pgp} and one password kind (empty, ASCII, non-ASCII, 300 bytes); the pair must parse with its password, string / stream / header variants must round-trip under the matching halves, parsing the private half with 2-3 different passwords (longer, unrelated, empty) must fail, and data of pair 1 must not decrypt / verify under pair 2 (nor altered data verify); every case is non-trivial; distinct = distinct (role, format, password kind, repetition); the string variants (embedded headers) are round-tripped with 216, 65536, 65537, 200016 and 1048592 bytes",
 		Assumptions: []string{"minisign and age-with-password go through scrypt (seconds and ~1 GiB per call), so quick covers 2 minisign password kinds and thorough all 4"}}
 }
 
